@@ -5,7 +5,7 @@ cd /repo || exit 2
 if ! git apply --check "$P" 2>/dev/null; then echo "patch does not apply: $P"; exit 3; fi
 git apply "$P"
 cd /verif && ./check "$ID" "$T" > /tmp/seeded_run.$$ 2>&1; RC=$?
-grep -E "^VIOLATION|^KNOWN|^\[" /tmp/seeded_run.$$ | head -6
+grep -E "^VIOLATION|^\[" /tmp/seeded_run.$$ | head -6
 rm -f /tmp/seeded_run.$$
 git -C /repo checkout -- . && git -C /repo clean -fdq -e rawpanel-lib-c/rawpanel-lib-c
 echo "exit=$RC"
